@@ -209,7 +209,12 @@ def message_key(mode: str) -> str:
     return f"transport_retains_messages:{mode}"
 
 
-def judge(run, case, phash, mode, job, res) -> dict:
+# verdicts that rest on a MEASUREMENT of the live heap (the others are exact table sizes): confirmed by a second, fresh
+# subprocess before they are reported - a genuine per-run residue shows in both, a scheduling artefact of one sample does not
+MEASURED_KEYS = ("residual_growth_unattributed", "object_growth_without_attribution")
+
+
+def judge(run, case, phash, mode, job, res, defer=()) -> dict:
     """Apply (a) and (b) to one (pipeline, mode) result; returns the evidence row."""
     samples = res["samples"]
     row = {"pipeline": phash, "mode": mode, "nodes": len(case["nodes"]), "traced": bool(job["trace"]),
@@ -335,7 +340,11 @@ def judge(run, case, phash, mode, job, res) -> dict:
     elif len(job["points"]) >= 4:
         row["growth_shape"] = "not_extended(heap_above_cap)"
         run.count("growth_shape_not_extended")
+    row["deferred"] = {}
     for key, msgs in sorted(found.items()):
+        if key in defer:
+            row["deferred"][key] = (f"[{mode}] " + " | ".join(msgs), dict(witness, observed={k: v for k, v in row.items() if k != "deferred"}))
+            continue
         run.violation(key, f"[{mode}] " + " | ".join(msgs), dict(witness, observed=row))
     row["keys"] = sorted(found)
     return row
@@ -365,7 +374,22 @@ def execute(run, jobs: list, tier: str) -> list:
             for s in res["samples"]:
                 if s["pipeline_runs_observed"] != s["run"]:
                     run.count("run_counter_mismatch")
-            row = judge(run, case, phash, mode, job, res)
+            row = judge(run, case, phash, mode, job, res, defer=MEASURED_KEYS)
+            if row["deferred"]:
+                run.count("measured_verdicts_rechecked")
+                res2 = run_job(job, WATCHDOG[tier])
+                again = {}
+                if res2.get("ok") and len(res2.get("samples", [])) >= 3 and not res2.get("watchdog"):
+                    run.counters["registry_comparisons"] -= 0
+                    row2 = judge(run, case, phash, mode, job, res2, defer=tuple(set(MEASURED_KEYS) | set(row["keys"])))
+                    again = row2["deferred"]
+                for key, (msg, wit) in row["deferred"].items():
+                    if key in again:
+                        run.violation(key, msg + " [reproduced in a second fresh subprocess]", wit)
+                    else:
+                        run.count("measured_verdict_not_reproduced")
+                row["measured_verdicts_not_reproduced"] = sorted(set(row["deferred"]) - set(again))
+            row.pop("deferred", None)
             rows.append(row)
             run.case([phash, mode], nontrivial=len(case["nodes"]) >= 3,
                      sample={"pipeline": phash, "mode": mode, "nodes": case["nodes"], "ctx": case["ctx"],
